@@ -63,7 +63,7 @@ Lemma Rdiv_same' x : x <> 0 -> x / x = 1.
 Proof. intro H. unfold Rdiv. apply Rinv_r. exact H. Qed.
 Ltac r_zero :=
   repeat match goal with |- context [?a / ?a] => rewrite (Rdiv_same' a) by lra end;
-  rewrite ?Rplus_opp_r', ?Rdiv_0_l', ?Rmult_0_r, ?Rmult_0_l, ?Ropp_0, ?Rplus_0_r, ?Rplus_0_l, ?exp_0, ?Rpower_1_l, ?Rabs_R0.
+  rewrite ?ln_1, ?Rplus_opp_r', ?Rdiv_0_l', ?Rmult_0_r, ?Rmult_0_l, ?Ropp_0, ?Rplus_0_r, ?Rplus_0_l, ?exp_0, ?Rpower_1_l, ?Rabs_R0.
 
 Ltac er_step :=
   match goal with
